@@ -241,6 +241,12 @@ def gen_section(rng, le, asz, eh, maxins=25):
             c.aug = ''
         pc = [0, c.caf]
         c.ibytes, c.ins, c.iexp, c.cfa_kind = gen_instrs(rng, rng.choice([0, 0, 1, 3, 6]), False, le, asz, 'none', pc)
+        if cies and rng.random() < 0.3:
+            # a twin of the first CIE: the same code alignment and byte-for-byte the same initial instructions under
+            # another data alignment factor (what is decoded for one is not the answer for the other)
+            t = cies[0]
+            c.caf, c.ibytes, c.ins, c.iexp, c.cfa_kind = t.caf, t.ibytes, t.ins, t.iexp, t.cfa_kind
+            c.daf = rng.choice([d for d in (-8, -4, -1, 1, 4, 8) if d != t.daf])
         cies.append(c)
     items = list(cies)
     for _ in range(rng.randint(0, 6)):
